@@ -16,6 +16,7 @@ from harness import runner, tlc
 from harness.core import pool_map
 from harness.tlsrun import build_tls_capture, observe_tls, suites
 from observe.pcapng import Observation
+from wire import quicref as Q
 from wire import tlsref as R
 from wire.container import pcapng_bytes
 from wire.l2l4 import mk_flow, tcp_frame, udp_frame, PSH, ACK
@@ -149,7 +150,11 @@ def _one(job):
             pass
         cap, keylog, conns, flows = build_tls_capture(sc)
         sc2 = json.loads(json.dumps(sc))
-        sc2["conns"][0]["shape"]["sh_suite_override"] = 0xC03C      # an ARIA suite: registered, not in TLExport's table
+        # a code point TLExport cannot implement: registered suites whose cipher it has no code for (ARIA, Camellia-GCM, SEED, GOST, NULL ...)
+        # and unregistered / GREASE values, drawn anew for every victim
+        reg = R.registry()
+        cands = sorted(c_ for c_, n_ in reg.items() if R.denote(c_, n_) is None or not R.implementable(R.denote(c_, n_))) + [0x1A1A, 0xFFFE, 0x00FF, 0x5600]
+        sc2["conns"][0]["shape"]["sh_suite_override"] = cands[fseed % len(cands)] if fseed % 4 else 0xC07A
         cap_ns, keylog_ns, conns_ns, _ = build_tls_capture(sc2)
     except Exception:
         import traceback
@@ -202,7 +207,11 @@ def quic_hist(gens=False):
          dict(d="s", pkts=[dict(t="I", d="s", gen=0, frames=[O("ack"), dict(ft="crypto", a="SH", b=1)]), dict(t="H", d="s", gen=0, frames=[dict(ft="crypto", a="SF", b=1)])]),
          dict(d="c", pkts=[dict(t="I", d="c", gen=0, frames=[O("ack")]), dict(t="H", d="c", gen=0, frames=[dict(ft="crypto", a="CF", b=1)]), dict(t="A", d="c", gen=0, frames=[S(1)])]),
          A("s", 0, [O("done"), S(2)]), A("c", 0, [S(3), O("ack")]), A("s", 0, [O("ack"), S(4), S(5)])]
-    if gens:
+    if gens == "early":      # 0.5-RTT data: the server's first 1-RTT packet travels (coalesced) before the client's Finished
+        h[1]["pkts"].append(dict(t="A", d="s", gen=0, frames=[S(9)]))
+        h.insert(2, A("s", 0, [S(10)]))
+        h += [A("c", 0, [S(6)]), A("s", 0, [S(7)])]
+    elif gens:
         h += [A("c", 1, [S(6)]), A("s", 1, [S(7)]), A("s", 1, [O("ping"), S(8)])]
     else:
         h += [A("c", 0, [S(6)]), A("s", 0, [S(7)])]
@@ -231,6 +240,9 @@ def _one_quic(job):
     except Exception:
         import traceback
         return dict(machinery=traceback.format_exc()[-1500:])
+    if seed % 2:          # the victim's client retransmits its first flight (PTO): duplicate Initial datagrams; CRYPTO frames of a connection that
+        vq.dgrams.insert(2, vq.dgrams[0])          # never completes (keys removed, capture cut) stay pending in ITS session only
+        vq.dgrams.insert(1, vq.dgrams[0])
     fv, fb, ft = mk_flow(0, sport=443), mk_flow(1, ipv=6, sport=443), mk_flow(2)
     vfr = [udp_frame(fv, g.d, g.payload) for g in vq.dgrams]
     bfr = [udp_frame(fb, g.d, g.payload) for g in bq.dgrams]
@@ -292,6 +304,26 @@ def _one_quic(job):
         for v in (forms if not quick else rng.sample(forms, 3)):
             faults.append(dict(kind="sethdr", pkt=i, val=v, v1=False))
             faults.append(dict(kind="sethdr", pkt=i, val=v, v1=True))
+    # an overwritten payload may be ANY bytes -- among them a short-header packet that unmasks to the other key phase and fails
+    # authentication (built with the victim's own header-protection key, tag damaged): in place of victim datagram i
+    import copy as _copy
+    for i in vidx[2:]:
+        g = vq.dgrams[owner[i][1]]
+        save = _copy.deepcopy((vq.pn[g.d], vq.largest_seen[g.d]))
+        try:
+            raw, _m = vq.pkt(g.d, "a", Q.f_ping() + Q.f_padding(24), gen=vq.gen[g.d] + 1)
+        except Exception:
+            raw = None
+        vq.pn[g.d], vq.largest_seen[g.d] = save
+        if raw:
+            faults.append(dict(kind="forged", pkt=i, payload=(raw[:-1] + bytes([raw[-1] ^ 0x5A])).hex(), replace=bool(i % 2)))
+    # arbitrary UDP payloads ON THE VICTIM'S OWN 4-tuple (either direction): random bytes behind a short-header first byte, of lengths around
+    # the minimum a header-protection sample needs, and long ones
+    for i in vidx:
+        for _ in range(2 if quick or i != vidx[0] else 6):
+            d = rng.choice("cs") if i != vidx[0] else "s"
+            n = rng.choice([1, 4, 17, 21, 22, 25, 29, 37, 60, 300, 1200])
+            faults.append(dict(kind="own_udp", pkt=i, d=d, payload=(bytes([0x40 | rng.getrandbits(6)]) + bytes(rng.getrandbits(8) for _ in range(n))).hex()))
     # foreign UDP traffic between other endpoints: arbitrary payloads, among them ones shaped like short- and long-header QUIC packets
     for _ in range(3 if quick else 12):
         ln = rng.choice([1, 5, 21, 22, 40, 300, 1200, 1500])
@@ -308,7 +340,19 @@ def _one_quic(job):
     for f in faults:
         frames, kl = list(merged), list(keylog)
         k = f["kind"]
-        if k == "foreign_udp":
+        if k == "own_udp":
+            fr = udp_frame(fv, f["d"], bytes.fromhex(f["payload"]))
+            stamp[id(fr)] = stamp[id(merged[f["pkt"]])] + 1
+            frames = frames[:f["pkt"] + 1] + [fr] + frames[f["pkt"] + 1:]
+        elif k == "forged":
+            g = vq.dgrams[owner[f["pkt"]][1]]
+            fr = udp_frame(fv, g.d, bytes.fromhex(f["payload"]))
+            stamp[id(fr)] = stamp[id(merged[f["pkt"]])] + (0 if f["replace"] else 1)
+            if f["replace"]:
+                frames[f["pkt"]] = fr
+            else:
+                frames = frames[:f["pkt"] + 1] + [fr] + frames[f["pkt"] + 1:]
+        elif k == "foreign_udp":
             fxp = mk_flow(7, sport=f["port"])
             extra = [udp_frame(fxp, "c", bytes.fromhex(f["payload"])), udp_frame(fxp, "s", bytes.fromhex(f["payload"])[::-1])]
             for e in extra:
@@ -406,7 +450,7 @@ def run(chk):
                 chk.violation(f"fault {f}: {b}", dict(scenario=res["sc"], fault=f, finding=b), kf_key=kf)
         chk.sample(dict(victim=[R.VNAME[res["sc"]["conns"][0]["ver"]], hex(res["sc"]["conns"][0]["suite"])], faults=res["n"] - 1,
                         example=res["results"][min(5, len(res["results"]) - 1)]["fault"]), limit=3)
-    qjobs = [(st, rng.randrange(1 << 30), quick, g) for st in (["1301", "1303"] if quick else ["1301", "1302", "1303", "1304"]) for g in (False, True)]
+    qjobs = [(st, rng.randrange(1 << 30), quick, g) for st in (["1301", "1303"] if quick else ["1301", "1302", "1303", "1304"]) for g in (False, True, "early")]
     for res in pool_map(_one_quic, qjobs, chunksize=1):
         if "machinery" in res:
             raise Exception("QUIC fault enumeration failed in the harness: " + res["machinery"])
